@@ -585,4 +585,42 @@ def b_kink(c):
     raise Skip("no kink template for " + prim)
 
 
-BUILDERS = {"kink": b_kink, "linalg": b_linalg, "fft": b_fft, "index": b_index, "join": b_join, "contract": b_contract, "rearr": b_rearr, "binary": b_binary, "where": b_where, "reduce": b_reduce, "cum": b_cum, "unary": b_unary}
+# ----------------------------------------------------------------------------- every float argument of multi-argument functions
+def b_argsweep(c):
+    prim, n = c["prim"], c["argnum"]
+    s = tuple(c["s"])
+    a = data(s, 0.3, 2.7, 0)
+    b = data(s, 0.4, 1.9, 5)
+    hi = data(s, 2.0, 3.0, 9)
+    if not hasattr(onp, prim):
+        raise Skip("not in this NumPy")
+    fn = getattr(np, prim)
+    if prim == "clip":
+        args = [a, b, hi]           # some entries are clipped from below: the value genuinely depends on the bounds
+    elif prim == "gradient":
+        args = [a, onp.sort(b)]
+    elif prim == "interp":
+        args = [a, onp.sort(b) * 2.0, hi]
+    elif prim in ("ldexp",):
+        args = [a, onp.array([1, 2, 1, 2][:s[0]])]
+    elif prim in ("percentile", "quantile"):
+        args = [a, 30.0 if prim == "percentile" else 0.3]
+    elif prim in ("searchsorted", "digitize"):
+        args = [onp.sort(a), b] if prim == "searchsorted" else [a, onp.sort(b)]
+    elif prim == "average":
+        args = [a]
+    else:
+        args = [a, b]
+    if n >= len(args) or not (isinstance(args[n], float) or (isinstance(args[n], onp.ndarray) and args[n].dtype.kind == "f")):
+        raise Skip("not a float argument")
+    kw = {"weights": b} if prim == "average" else {}
+
+    def f(v):
+        q = list(args)
+        q[n] = v
+        r = fn(*q, **kw)
+        return r[0] if isinstance(r, tuple) else r
+    return f, args[n], {}
+
+
+BUILDERS = {"argsweep": b_argsweep, "kink": b_kink, "linalg": b_linalg, "fft": b_fft, "index": b_index, "join": b_join, "contract": b_contract, "rearr": b_rearr, "binary": b_binary, "where": b_where, "reduce": b_reduce, "cum": b_cum, "unary": b_unary}
